@@ -218,6 +218,9 @@ type c12Config struct {
 
 func c12Setup(t *rapid.T, cfg c12Config) *c12Run {
 	n := rapid.IntRange(3, cfg.maxN).Draw(t, "groupSize")
+	if n < 5 && cfg.maxN >= 5 && rapid.Bool().Draw(t, "atLeastFive") {
+		n = 5 // groups of 3 and 4 admit a single corrupt seat only
+	}
 	if rapid.IntRange(0, 9).Draw(t, "bigGroup") == 0 {
 		n = 7 // three corrupt seats possible (three-member collusion scenarios)
 	}
@@ -344,12 +347,13 @@ func c12DrawScenario(t *rapid.T, run *c12Run) {
 		run.fired["scenario:two-reconstructions-different-revealers"] = true
 		return
 	}
-	if len(corrupt) < 2 || rapid.IntRange(0, 2).Draw(t, "scenario") != 0 {
+	if len(corrupt) < 2 || rapid.IntRange(0, 1).Draw(t, "scenario") != 0 {
 		return
 	}
 	perm := rapid.Permutation(corrupt).Draw(t, "scenarioRoles")
 	a, b := perm[0], perm[1]
-	switch rapid.IntRange(0, 12).Draw(t, "scenarioKind") {
+	// kinds with two variants (shares / points) are drawn twice as often
+	switch rapid.SampledFrom([]int{0, 1, 2, 3, 4, 4, 5, 6, 6, 7, 8, 9, 10, 11, 11, 12}).Draw(t, "scenarioKind") {
 	case 0:
 		// a sends b a bad share, b keeps quiet about it, a then fails in
 		// phase 7 so its key must be reconstructed; b reveals (or not)
